@@ -4,8 +4,13 @@ package c19
 
 import (
 	"fmt"
+	"runtime"
+	"sync"
+	"sync/atomic"
 	"testing"
 	"time"
+
+	"pgregory.net/rapid"
 
 	"gopkg.in/typ.v4/chans"
 	"verifharness/internal/gstate"
@@ -19,7 +24,8 @@ type QCase struct {
 	Fill   int  `json:"fill"`
 	Closed bool `json:"closed"`
 	Limit  int  `json:"limit"`
-	Kind   int  `json:"kind"` // 0 chan int, 1 <-chan int, 2 named channel type
+	Kind   int  `json:"kind"`            // 0 chan int, 1 <-chan int, 2 named channel type
+	Spare  int  `json:"spare,omitempty"` // RecvQueuedFull: spare capacity behind the buffer (cap(buf) = Limit+Spare)
 }
 
 type namedChan chan int
@@ -41,12 +47,25 @@ func RunQueued(c QCase) pbt.Outcome {
 	done := make(chan result, 1)
 	go func() {
 		var r result
-		defer func() { r.pan = recover(); done <- r }()
-		if c.Full {
-			buf := make([]int, max(c.Limit, 0))
-			for i := range buf {
-				buf[i] = -1 // sentinel: untouched slots must stay untouched
+		defer func() {
+			if p := recover(); p != nil {
+				r.pan = p
 			}
+			done <- r
+		}()
+		if c.Full {
+			backing := make([]int, max(c.Limit, 0)+c.Spare)
+			for i := range backing {
+				backing[i] = -1 // sentinel: untouched slots (and the spare capacity) must stay untouched
+			}
+			buf := backing[:max(c.Limit, 0)]
+			defer func() {
+				for i := len(buf); i < len(backing); i++ {
+					if backing[i] != -1 && r.pan == nil {
+						r.pan = fmt.Sprintf("wrote %d into the spare capacity behind the buffer (index %d, len(buf)=%d)", backing[i], i, len(buf))
+					}
+				}
+			}()
 			switch c.Kind {
 			case 0:
 				r.n = chans.RecvQueuedFull(ch, buf)
@@ -159,7 +178,7 @@ func fn(c QCase) string {
 
 var specQueued = pbt.Register(&pbt.Spec[QCase]{
 	Property: "C19", Name: "C19.queued",
-	Rule: "exhaustive grid: {RecvQueued, RecvQueuedFull} x channel kind {chan, <-chan, named} x capacity 0..6 x fill 0..cap x closed? x limit -1..8 (thorough: capacity 0..12, limit -1..14); queued values are non-zero serials; " +
+	Rule: "exhaustive grid: {RecvQueued, RecvQueuedFull} x channel kind {chan, <-chan, named} x capacity 0..6 x fill 0..cap x closed? x limit -1..8 (RecvQueuedFull also with 1 and 3 slots of spare capacity behind the buffer) (thorough: capacity 0..12, limit -1..14); queued values are non-zero serials; " +
 		"oracle: result == the first min(fill,limit) queued values in FIFO order, the remainder still in the channel in order, nothing else (no zero padding after close), untouched buffer slots untouched, " +
 		"and the call never blocks (the call runs in a goroutine; 'blocked' is established from its goroutine state, not from a timer); non-trivial = closed with fill>=1 and limit>fill",
 	Enum: func(shard, shards int, tier string, yield func(QCase) bool) {
@@ -179,6 +198,13 @@ var specQueued = pbt.Register(&pbt.Spec[QCase]{
 								if !yield(QCase{Full: full, Cap: cp, Fill: fill, Closed: closed, Limit: lim, Kind: kind}) {
 									return
 								}
+								if full && kind == 0 {
+									for _, spare := range []int{1, 3} {
+										if !yield(QCase{Full: full, Cap: cp, Fill: fill, Closed: closed, Limit: lim, Kind: kind, Spare: spare}) {
+											return
+										}
+									}
+								}
 							}
 						}
 					}
@@ -190,4 +216,127 @@ var specQueued = pbt.Register(&pbt.Spec[QCase]{
 })
 
 func TestC19Queued(t *testing.T) { pbt.Check(t, specQueued) }
-func TestReplay(t *testing.T)    { pbt.Replay(t) }
+
+// ---------------------------------------------------------------- concurrent drainers
+
+// CCase: several goroutines call RecvQueued / RecvQueuedFull on the same channel at once.
+type CCase struct {
+	Cap    int   `json:"cap"`
+	Fill   int   `json:"fill"`
+	Closed bool  `json:"closed"`
+	Limits []int `json:"limits"` // one call per entry
+	Full   bool  `json:"full"`
+	Procs  int   `json:"procs"`
+	Reps   int   `json:"reps"`
+}
+
+func RunQueuedConc(c CCase) pbt.Outcome {
+	if c.Procs > 0 {
+		defer runtime.GOMAXPROCS(runtime.GOMAXPROCS(c.Procs))
+	}
+	for rep := 0; rep < c.Reps; rep++ {
+		ch := make(chan int, c.Cap)
+		for i := 1; i <= c.Fill; i++ {
+			ch <- i * 7
+		}
+		if c.Closed {
+			close(ch)
+		}
+		results := make([][]int, len(c.Limits))
+		var wg sync.WaitGroup
+		var gate atomic.Int32
+		var finished atomic.Int32
+		for i, lim := range c.Limits {
+			i, lim := i, lim
+			wg.Add(1)
+			go func() {
+				defer wg.Done()
+				gate.Add(1)
+				for int(gate.Load()) < len(c.Limits) {
+					runtime.Gosched()
+				}
+				if c.Full {
+					buf := make([]int, lim)
+					n := chans.RecvQueuedFull(ch, buf)
+					results[i] = buf[:n]
+				} else {
+					results[i] = chans.RecvQueued(ch, lim)
+				}
+				finished.Add(1)
+			}()
+		}
+		isDone := func() bool { return int(finished.Load()) == len(c.Limits) }
+		state, fin, timedOut := gstate.WaitBlocked("chans.RecvQueued", isDone, 20*time.Second, "chan receive", "select")
+		if !fin {
+			if !c.Closed {
+				func() {
+					defer func() { recover() }()
+					close(ch) // frees the blocked call
+				}()
+			}
+			wg.Wait()
+			if timedOut {
+				return pbt.Outcome{Inconclusive: "concurrent RecvQueued calls neither returned nor were seen blocked"}
+			}
+			return pbt.Fail("repetition %d: a RecvQueued* call blocked (goroutine state %q) while %d calls with limits %v drained a channel holding %d values concurrently: it must never block", rep, state, len(c.Limits), c.Limits, c.Fill)
+		}
+		wg.Wait()
+		seen := map[int]int{}
+		total := 0
+		for i, r := range results {
+			if len(r) > max(c.Limits[i], 0) {
+				return pbt.Fail("repetition %d: call %d returned %d values, limit %d", rep, i, len(r), c.Limits[i])
+			}
+			last := 0
+			for _, v := range r {
+				if v <= last {
+					return pbt.Fail("repetition %d: call %d returned %v: not in FIFO order", rep, i, r)
+				}
+				last = v
+				seen[v]++
+				total++
+			}
+		}
+		// the rest is still queued
+		var rest []int
+	drain:
+		for {
+			select {
+			case v, ok := <-ch:
+				if !ok {
+					break drain
+				}
+				rest = append(rest, v)
+				seen[v]++
+			default:
+				break drain
+			}
+		}
+		for i := 1; i <= c.Fill; i++ {
+			if seen[i*7] != 1 {
+				return pbt.Fail("repetition %d: queued value %d was returned %d times (results %v, left in channel %v)", rep, i*7, seen[i*7], results, rest)
+			}
+		}
+		if len(seen) != c.Fill {
+			return pbt.Fail("repetition %d: values that were never sent appeared: results %v, left in channel %v", rep, results, rest)
+		}
+	}
+	return pbt.Outcome{Evals: c.Reps, NonTrivial: len(c.Limits) >= 2 && c.Fill >= 2, Labels: []string{fmt.Sprintf("callers=%d", len(c.Limits))}}
+}
+
+var specQueuedConc = pbt.Register(&pbt.Spec[CCase]{
+	Property: "C19", Name: "C19.queuedconc",
+	Rule: "2..4 goroutines call RecvQueued / RecvQueuedFull on the same channel at the same time (capacity 1..8, any fill, open or closed, limits 0..10), 40 repetitions: no call may block (goroutine-state classifier), " +
+		"each result is in FIFO order, and results plus what is left in the channel are exactly the queued values, each once; non-trivial = >=2 callers and >=2 queued values",
+	Gen: func(t *rapid.T) CCase {
+		cp := rapid.IntRange(1, 8).Draw(t, "cap")
+		n := rapid.IntRange(2, 4).Draw(t, "callers")
+		return CCase{Cap: cp, Fill: rapid.IntRange(0, cp).Draw(t, "fill"), Closed: rapid.Bool().Draw(t, "closed"),
+			Limits: rapid.SliceOfN(rapid.IntRange(0, 10), n, n).Draw(t, "limits"), Full: rapid.Bool().Draw(t, "full"),
+			Procs: rapid.SampledFrom([]int{2, 4, 16}).Draw(t, "procs"), Reps: 40}
+	},
+	Run: RunQueuedConc, Quick: 300, Thorough: 5000, Crashy: true, Retries: 50,
+})
+
+func TestC19QueuedConc(t *testing.T) { pbt.Check(t, specQueuedConc) }
+func TestReplay(t *testing.T)        { pbt.Replay(t) }
